@@ -227,7 +227,7 @@ def items(tier: str, seed: int) -> List[Dict[str, Any]]:
     quick = tier == "quick"
     out: List[Dict[str, Any]] = []
     if quick:
-        for g in ("idle", "busy", "regions", "mixed"):
+        for g in ("idle", "regions", "mixed"):
             for first in EVENTS:
                 out.append({"ob": "layout_independence", "params": {"group": GROUPS[g], "prefix": [first], "L": 3}, "timeout": 400,
                             "label": f"layout_independence[{g},K=4,{first}+2]"})
